@@ -1,5 +1,6 @@
 """C12 - The KSR/SKR reader agrees with a standard XML parser, in any sibling order."""
 import argparse
+import os
 import datetime as dt
 import sys
 
@@ -272,6 +273,25 @@ for i in range(40 * SCALE):
     cases.append(c)
     meta.append({"kind": "model-plain-doc", "desc": {"doc_head": doc[:200], "len": len(doc)}, "spec_ok": True, "spec_msg": "", "key": None})
     count("model-plain-doc")
+    # the same document as a plain-form tree: premises of reader_extracts_tree (wf, depth), tree serialisation = document, tree data = reader's result
+    doc_t = R.choice(["", "", "\n", "generated by a client\n"]) + ksrxml.render_tree(ksrxml.ksr_tree(req), R, permute=i % 2 == 1, tail_blanks=False)
+    ct = X.case_tree(xp, doc_t) if len(doc_t) <= 2800 else None
+    if ct is None:
+        count("plain-form-tree-not-applicable")        # a prolog comment or padded text: outside the theorem's form
+    else:
+        cases.append(ct)
+        meta.append({"kind": "plain-form-tree", "desc": {"doc_head": doc[:200], "len": len(doc)}, "spec_ok": True, "spec_msg": "", "key": None})
+        count("plain-form-tree")
+# the archived KSRs of the repository's test data are in the theorem's form too
+import glob
+for path in sorted(glob.glob(str(vlib.REPO / "src/kskm/ksr/tests/data/ksr-root-*.xml")))[: (2 if TIER == "quick" else 5)]:
+    ct = X.case_tree(xp, open(path, encoding="utf-8").read())
+    if ct is None:
+        count("plain-form-tree-not-applicable")
+        continue
+    cases.append(ct)
+    meta.append({"kind": "plain-form-tree", "desc": {"file": os.path.basename(path)}, "spec_ok": True, "spec_msg": "", "key": None})
+    count("plain-form-tree-archived")
 for i in range(120 * SCALE):
     s = R.choice([X.rand_tagish, X.rand_attrish, X.rand_doc])(R)
     if s.startswith("<") and i % 3 == 0:
@@ -283,7 +303,7 @@ for i in range(120 * SCALE):
     count("model-function-level")
 
 ok_build, log = vlib.make(["Checks/XmlCheck.vo"])
-runner = vlib.CaseRun("C12", "xml", "From KV Require Import Base.Prelude Base.Exn Model.Data Model.Xml Checks.XmlCheck.", "case", "check", shard=40)
+runner = vlib.CaseRun("C12", "xml", "From KV Require Import Base.Prelude Base.Exn Model.Data Model.Xml Model.XmlTree Checks.XmlCheck.", "case", "check", shard=40)
 results = runner.run(cases) if ok_build else [-1] * len(cases)
 vlib.classify(rep, props, meta, results, cases, runner, "Checks.XmlCheck.check (xml_parser vs Model.Xml)")
 runner.cleanup()
